@@ -70,7 +70,7 @@ class TSum(Ty):
     def coq(self): return '(%s + %s)' % (self.a.coq(), self.b.coq())
 class TLst(Ty):
     def __init__(self, t): self.t = t
-    def coq(self): return 'list (%s)' % self.t.coq()
+    def coq(self): return 'list (%s)' % (self.t.coq() if self.t is not None else '_')
 
 Q, Z, B, NUM, NONE, STR = TQ(), TZ(), TB(), TNum(), TNone(), TStr()
 
@@ -598,7 +598,10 @@ class FuncTranslator:
             for c in CLASSES.mro(a.cls):
                 if CLASSES.is_subclass(b.cls, c): return TObj(c)
             return a
-        if isinstance(a, TLst) and isinstance(b, TLst): return TLst(self.join(a.t, b.t))
+        if isinstance(a, TLst) and isinstance(b, TLst):
+            if a.t is None: return b
+            if b.t is None: return a
+            return TLst(self.join(a.t, b.t))
         if isinstance(a, TTup) and isinstance(b, TTup) and len(a.ts) == len(b.ts):
             return TTup([self.join(x, y) for x, y in zip(a.ts, b.ts)])
         raise Untranslatable('%s: cannot unify types %r and %r' % (self.fn.name, a, b))
@@ -624,8 +627,8 @@ class FuncTranslator:
         if isinstance(t, TTup) and isinstance(v.t, TTup) and not same_coq(v.t, t):
             # element-wise coercion needs the components; only literal tuples reach here
             raise Untranslatable('tuple coercion')
+        if isinstance(t, TLst) and isinstance(v.t, TLst) and v.t.t is None: return v.s
         if same_coq(v.t, t): return v.s
-        if isinstance(t, TLst) and isinstance(v.t, TLst) and v.s == '[]': return '[]'
         raise Untranslatable('%s: cannot coerce %r to %r' % (self.fn.name, v.t, t))
 
     # ------------------------------------------------------------ statements
@@ -685,6 +688,32 @@ class FuncTranslator:
             self.fail(st, 'raise on a reachable path')
         self.fail(st, 'statement %s' % type(st).__name__)
 
+    def int_vars(self):
+        """names used inside subscript indices, range() bounds or compared/added with them: Python ints"""
+        scope = getattr(self, 'scope_fn', None) or self.fn
+        cache = self.__dict__.setdefault('_int_vars', {})
+        if id(scope) not in cache:
+            names = set()
+            for n in ast.walk(scope):
+                if isinstance(n, ast.Subscript) and not isinstance(n.slice, ast.Slice):
+                    for m in ast.walk(n.slice):
+                        if isinstance(m, ast.Name):
+                            names.add(m.id)
+                if isinstance(n, ast.Call) and isinstance(n.func, ast.Name) and n.func.id in ('range', 'xrange'):
+                    for a in n.args:
+                        for m in ast.walk(a):
+                            if isinstance(m, ast.Name):
+                                names.add(m.id)
+            # closure: x = y (+|-) const with y an int var, or y = x ... (one round is enough for the code base)
+            for n in ast.walk(scope):
+                if isinstance(n, ast.Assign) and len(n.targets) == 1 and isinstance(n.targets[0], ast.Name):
+                    used = {m.id for m in ast.walk(n.value) if isinstance(m, ast.Name)}
+                    if used and used <= names and all(isinstance(m, (ast.Name, ast.BinOp, ast.Constant, ast.Add, ast.Sub, ast.Load, ast.UnaryOp, ast.USub))
+                                                      for m in ast.walk(n.value)):
+                        names.add(n.targets[0].id)
+            cache[id(scope)] = names
+        return cache[id(scope)]
+
     def fixed_list(self, name):
         """is `name` used in this function only through constant subscripts (a fixed-size record)?"""
         scope = getattr(self, 'scope_fn', None) or self.fn
@@ -726,8 +755,11 @@ class FuncTranslator:
             return '', env
         cn = vname(name.replace('self.', 'self_'))
         t = Q if isinstance(v.t, TNum) else v.t
+        vs = v.s
+        if isinstance(v.t, TNum) and name in self.int_vars():
+            t, vs = Z, self.coerce(v, Z)       # an integer literal bound to a name that is used as an index / counter
         env[name] = Val(cn, t)
-        return 'let %s := %s in\n  ' % (cn, v.s), env
+        return 'let %s := %s in\n  ' % (cn, vs), env
 
     def assign(self, target, value, rest, env, st):
         if isinstance(target, ast.Name) and isinstance(value, (ast.Tuple, ast.List)) and value.elts \
@@ -1190,17 +1222,30 @@ class FuncTranslator:
         outs = []
         for n in acc:
             outs.append(self.coerce(body_env[n], env[n].t))
+        def init_of(n):
+            v = env[n]
+            if isinstance(v.t, TLst) and v.t.t is not None:
+                return '(%s : %s)' % (v.s, v.t.coq())      # an empty-list literal needs its element type
+            return v.s
         if len(acc) == 1:
-            accpat, acctup, init = acc_c[0], outs[0], env[acc[0]].s
+            accpat, acctup, init = acc_c[0], outs[0], init_of(acc[0])
         else:
             accpat = "'(" + ', '.join(acc_c) + ')'
             acctup = '(' + ', '.join(outs) + ')'
-            init = '(' + ', '.join(env[n].s for n in acc) + ')'
+            init = '(' + ', '.join(init_of(n) for n in acc) + ')'
         env2 = dict(env)
         for n, cn in zip(acc, acc_c):
             env2[n] = Val(cn, env[n].t)
-        fold = 'fold_left (fun %s %s => %s%s) %s %s' % (
-            accpat if len(acc) == 1 else "'(" + ', '.join(acc_c) + ')', pat, body_s, acctup, paren(it.s), init)
+        if retry:
+            # some accumulator starts as an empty list: give the accumulator its type explicitly
+            tys = [(Q if isinstance(env[n].t, TNum) else env[n].t).coq() for n in acc]
+            ty = tys[0] if len(acc) == 1 else '(' + ' * '.join(tys) + ')'
+            unpack = '' if len(acc) == 1 else "let %s := acc_ in " % accpat
+            binder = '(%s : %s)' % (acc_c[0], ty) if len(acc) == 1 else '(acc_ : %s)' % ty
+            fold = 'fold_left (fun %s %s => %s%s%s) %s %s' % (binder, pat, unpack, body_s, acctup, paren(it.s), init)
+        else:
+            fold = 'fold_left (fun %s %s => %s%s) %s %s' % (
+                accpat if len(acc) == 1 else "'(" + ', '.join(acc_c) + ')', pat, body_s, acctup, paren(it.s), init)
         return 'let %s := %s in\n  %s' % (accpat, fold, self.block(rest, env2))
 
     def pattern(self, target, ty, env):
@@ -1500,6 +1545,11 @@ class FuncTranslator:
             if isinstance(sl, ast.Constant) and isinstance(sl.value, int):
                 attr = ['x', 'y', 'z'][sl.value]
                 return self.getattr_val(v, attr, e)
+        if isinstance(v.t, TObj) and not isinstance(sl, ast.Slice) and CLASSES.find_member(v.t.cls, '__getitem__'):
+            idx = self.expr(sl, env)
+            if isinstance(idx.t, TNum):
+                idx = Val(self.coerce(idx, Z), Z)
+            return self.call_method(v, '__getitem__', [idx], e)
         if isinstance(v.t, TLst):
             if isinstance(sl, ast.Slice):
                 lo = self.coerce(self.expr(sl.lower, env), Z) if sl.lower else None
